@@ -29,8 +29,13 @@ def gen_program(rng, nops):
             ops.append('%s %d %d' % ('isp' if rng.random() < 0.3 else 'is', t, rng.choice(handles)))
         elif r < 0.75 and handles:
             ops.append('rc %d %d' % (t, rng.choice(handles)))
-        elif r < 0.78 and len(handles) >= 2:
+        elif r < 0.77 and len(handles) >= 2:
             ops.append('ff %d %d %d' % (t, rng.choice(handles), rng.choice(handles)))
+        elif r < 0.79 and guards:
+            # an entered guard (not a Span) named as explicit parent / follows_from source, on the guard's own thread
+            g = rng.choice(sorted(guards)); gt = guards[g]
+            if handles and rng.random() < 0.5: ops.append('ffg %d %d %d' % (gt, rng.choice(handles), g))
+            else: nh += 1; ops.append('nsg %d %d %d %d' % (gt, nh, rng.choice([3, 3, 4]), g)); handles.append(nh)
         elif r < 0.84:
             nh += 1; ops.append('cu %d %d' % (t, nh)); handles.append(nh)
         elif r < 0.88 and handles:
